@@ -132,7 +132,11 @@ func toAddr(sa Sockaddr, typ int) *kernel.Addr {
 		if typ == kernel.UDP {
 			n = "udp"
 		}
-		return &kernel.Addr{Net: n, IP: v.Addr, Port: v.Port}
+		ip := v.Addr
+		if ip == [4]byte{} {
+			ip = [4]byte{127, 0, 0, 1} // Linux: connecting to INADDR_ANY reaches the local host
+		}
+		return &kernel.Addr{Net: n, IP: ip, Port: v.Port}
 	case *SockaddrInet6:
 		n := "tcp"
 		if typ == kernel.UDP {
